@@ -55,4 +55,18 @@ theorem AllocShape.frame {E a a' q sz} (hwf : ArenaWF E a) (hwf' : ArenaWF E a')
     · intro _
       exact ⟨{ c with ptr := q }, by rw [hc']; exact List.mem_cons_self, Nat.le_refl _, hle⟩
 
+/-- the block of a successful allocation ends below `2^63` -/
+theorem AllocShape.hi {E a a' p sz} (hE : EnvOK E) (hwf : ArenaWF E a) (hwf' : ArenaWF E a') (sh : AllocShape E a a' p sz) :
+    p + sz < 2 ^ 63 := by
+  have := FS
+  rcases sh with ⟨_, _, hp, hsz⟩ | ⟨c, cs, hc, _, _, hle⟩ | ⟨c, hc', _, hle, _⟩
+  · have := hE.hi; omega
+  · have hw := hwf.chunks c (by rw [hc]; exact List.mem_cons_self)
+    have := hw.ptr_le; have := footer_lt hw; have := hw.hi; omega
+  · have hw := hwf'.chunks { c with ptr := p } (by rw [hc']; exact List.mem_cons_self)
+    have hf := footer_lt hw; have := hw.hi
+    have : ({ c with ptr := p } : Chunk).footer = c.footer := rfl
+    omega
+
+
 end Bump
